@@ -478,6 +478,7 @@ type varOpts struct {
 	bothFormats  bool // only genes expressible in both formats
 	maxGenes     int
 	smallMutPool bool
+	sameName     bool // now and then two features of one name with another feature between them, all over the same codons
 }
 
 func genVarCase(r *RNG, id string, o varOpts) *Case {
@@ -499,6 +500,21 @@ func genVarCase(r *RNG, id string, o varOpts) *Case {
 			g2.segs = [][2]int{{g.segs[0][0], g.segs[0][0] + ln - 1}}
 			genes = append(genes, g2)
 			c.Tag("shared-start")
+		}
+	}
+	if o.sameName && r.Chance(1, 6) && len(genes) > 0 && genes[0].strand > 0 {
+		// g, h, g: two coding sequences of one gene (as ORF1ab has in the SARS-CoV-2 record) with another feature listed
+		// between them, sharing their first codons: the same aa record is generated twice, not next to each other
+		g := genes[0]
+		st := g.segs[0][0]
+		for k, nm := range []string{fmt.Sprintf("g%dh", len(genes)), g.name} {
+			ln := 6 + 3*r.Range(0, 3) + 3*k
+			if st+ln-1 <= L {
+				genes = append(genes, gene{name: nm, strand: 1, codonStart: 1, gffNamed: true, gffID: true, gffType: "CDS", gbForm: "range", segs: [][2]int{{st, st + ln - 1}}})
+				if k == 1 {
+					c.Tag("same-name-apart")
+				}
+			}
 		}
 	}
 	format := "gb"
